@@ -59,6 +59,25 @@ def check(repo: Repo, rep: Report) -> None:
                    ("reactivex/operators/_filter.py", "filter_indexed_.subscribe")):
         n_gate += SC.rule_state_before_callout(rep, "S4-bounds-reentrant", repo.fn(rel, q))
     rep.require(n_gate >= 1, "gate writes in the positional operators")
+    # take admits an element only while its countdown is positive (strictly): at 0 the budget is spent, even if the completion call
+    # has not been reached yet because the consumer fed the next element from inside its on_next
+    from ..astutil import compare_norm as _cnm
+    from ..rules import names_augmented as _naug, cell_name as _cnn
+    tk = repo.fn("reactivex/operators/_take.py", "take_.subscribe.on_next")
+    cnt = _naug(tk, ast.Sub)
+    okt = False
+    why_t = "no countdown"
+    if len(cnt) == 1:
+        for x in sites(tk):
+            if isinstance(x.node, ast.Call) and u(x.node.func).endswith(".on_next"):
+                for e, p_ in x.ctx.guards:
+                    r = _cnm(e, lambda y: _cnn(y) == cnt[0])
+                    if r and isinstance(r[1], ast.Constant) and r[1].value == 0:
+                        okt = (p_ and r[0] == ">") or (not p_ and r[0] == "<=")
+                        why_t = f"`{short(e)}`"
+    rep.ob("S4-bounds-reentrant", tk, f"take forwards only while the countdown is > 0 ({why_t})", okt,
+           "take admits an element when its countdown is already 0: an element fed by the consumer from inside the delivery of the last "
+           "allowed one is forwarded too — source[:n] emits n + 1 elements")
     fn = repo.fn(SL, "slice_")
     consts = [0]
     for s in sites(fn):
